@@ -1,6 +1,7 @@
 CONSTANTS
-  MaxToks = 3
+  MaxToks = 4
   Big = TRUE
-  NRand = 60000
+  NRand = 120000
+  Part = "scan"
 INIT GenInit
 NEXT GenNext
